@@ -32,3 +32,29 @@ def runOKb (cfg : Cfg) (i : Nat) (x : RunS) : Bool :=
 def histOK (cfg : Cfg) (s : Sys) : Bool := (s.runs.zipIdx).all (fun p => runOKb cfg p.2 p.1)
 
 end WorkflowModel.Engine
+
+namespace WorkflowModel.Engine
+open WorkflowModel RS
+
+/-- an event with the streamer's time stamp removed (same as `core` of the lemma files) -/
+def coreEv (e : Event) : Event := { e with createdAt := 0 }
+
+/-- executable mirror of `PendingAt` (Lemmas/Token.lean): the announcement of `w` is in the outbox, or published at an index
+that no step-consumer process of `w`'s status which handles it has passed. Processes without a stored cursor are at 0. -/
+def pendingAtB (s : Sys) (w : Rec) : Bool :=
+  s.outbox.any (fun o => o.ev == Routing.route w) ||
+  (List.range s.log.length).any (fun i =>
+    match s.log[i]? with
+    | none => false
+    | some e => coreEv e == Routing.route w &&
+        s.cursors.all (fun pc => match pc.1 with
+          | .step st k n => st != w.status || filteredOut (.step st k n) i e || decide (s.cursor (.step st k n) ≤ i)
+          | _ => true))
+
+/-- every run persisted Initiated or Running has its announcement pending -/
+def tokOK (s : Sys) : Bool :=
+  s.runs.all (fun x => match x.hist.head? with
+    | none => true
+    | some w => !(w.runState == 1 || w.runState == 2) || pendingAtB s w)
+
+end WorkflowModel.Engine
